@@ -34,6 +34,28 @@ Theorem C07_library_race_free : forall (reqs : list (list nat)) sched,
 Proof. exact library_race_free. Qed.
 Print Assumptions C07_library_race_free.
 
+(* No deadlock: if every program acquires its mutexes in increasing rank, releases only what it holds
+   and ends holding nothing, then in every reachable configuration in which some thread is
+   unfinished some thread can move (for any rank function, any programs, any interleaving). *)
+Theorem C07_lock_order_deadlock_free : forall rank progs, well_ordered rank progs = true ->
+  forall c, reach (init_cfg progs) c -> unfinished c -> can_move c.
+Proof. exact lock_order_deadlock_free. Qed.
+Print Assumptions C07_lock_order_deadlock_free.
+
+(* The library's summary follows the lock order of the code - abstractMu before planMu, the cache
+   mutex before the counters - so goroutines running any sequences of its operations never deadlock. *)
+Theorem C07_library_deadlock_free : forallb (ordered lib_rank []) lib_ops = true /\
+  forall (reqs : list (list nat)) c, reach (init_cfg (map prog_of_ids reqs)) c -> unfinished c -> can_move c.
+Proof. split; [exact lib_ops_ordered|exact library_deadlock_free]. Qed.
+Print Assumptions C07_library_deadlock_free.
+
+(* Witness that the order matters: two goroutines taking two mutexes in opposite orders reach a
+   configuration where both are unfinished and neither can move. *)
+Theorem C07_refuted_inverted_order :
+  exists c, reach (init_cfg [[Acq 0; Acq 1; Rel 1; Rel 0]; [Acq 1; Acq 0; Rel 0; Rel 1]]) c /\ unfinished c /\ ~ can_move c.
+Proof. exact inverted_order_deadlocks. Qed.
+Print Assumptions C07_refuted_inverted_order.
+
 (* Idempotent lazy initialisation: in every interleaving of requests made of Get / Reset on slots
    whose initialiser depends on the slot only, every slot is always None or Some (init_value slot),
    and every finished request's results equal its results when run alone on a cold state. *)
